@@ -59,7 +59,9 @@ impl ErrSpan {
         match self {
             ErrSpan::One(r)      => r.clone(),
             ErrSpan::Two([r, _]) => r.clone(),
-            ErrSpan::Many(r)     => r.first().unwrap().clone(),
+            // A span list built from an empty slice (e.g., linker errors, which have no source spans)
+            // has no first element; report an empty span at the start instead of panicking.
+            ErrSpan::Many(r)     => r.first().cloned().unwrap_or(0..0),
         }
     }
 
